@@ -181,3 +181,80 @@ pub fn c17(known: &Known, full: bool) -> SessionScenario {
         dedup: false,
     }
 }
+
+/// C17, key shapes: every request kind that takes a key, a pattern or a parent crossed with keys at
+/// the edges of every special case the server has (each length of the `$SYS/clients/<id>/…` guard
+/// for the own and another client, empty segments, wildcards in every position, keys that are
+/// prefixes of each other). One odd input per shortcut in the code.
+pub fn c17_keys(known: &Known) -> SessionScenario {
+    let own = cid(0).to_string();
+    let other = cid(1).to_string();
+    let keys: Vec<String> = vec![
+        s("$SYS"),
+        s("$SYS/"),
+        s("$SYS/clients"),
+        format!("$SYS/clients/{own}"),
+        format!("$SYS/clients/{other}"),
+        format!("$SYS/clients/{own}/"),
+        format!("$SYS/clients/{own}/graveGoods"),
+        format!("$SYS/clients/{own}/graveGoods/x"),
+        format!("$SYS/clients/{own}/lastWill"),
+        format!("$SYS/clients/{own}/x"),
+        format!("$SYS/clients/{own}/?"),
+        format!("$SYS/clients/{own}/#"),
+        s("$SYS/clients/?"),
+        s("$SYS/#"),
+        s(""),
+        s("/"),
+        s("a//"),
+        s("/a"),
+        s("?"),
+        s("#"),
+        s("#/a"),
+        s("a/#/b"),
+        s("?/?"),
+        s("a"),
+        s("a/b"),
+        s("a/b/c"),
+    ];
+    let mut lines: Vec<(usize, Line)> = vec![];
+    let mut t = 10_000u64;
+    for k in &keys {
+        let mut next = || {
+            t += 1;
+            t
+        };
+        for m in [
+            CM::Get(Get { transaction_id: next(), key: k.clone() }),
+            CM::CGet(Get { transaction_id: next(), key: k.clone() }),
+            CM::PGet(PGet { transaction_id: next(), request_pattern: k.clone() }),
+            CM::Set(Set { transaction_id: next(), key: k.clone(), value: json!(["x"]) }),
+            CM::CSet(CSet { transaction_id: next(), key: k.clone(), value: json!(["x"]), version: 0 }),
+            CM::Publish(Publish { transaction_id: next(), key: k.clone(), value: json!(1) }),
+            CM::SPubInit(SPubInit { transaction_id: next(), key: k.clone() }),
+            CM::Delete(Delete { transaction_id: next(), key: k.clone() }),
+            CM::PDelete(PDelete { transaction_id: next(), request_pattern: k.clone(), quiet: None }),
+            CM::Ls(Ls { transaction_id: next(), parent: Some(k.clone()) }),
+            CM::PLs(PLs { transaction_id: next(), parent_pattern: Some(k.clone()) }),
+            CM::Subscribe(Subscribe { transaction_id: next(), key: k.clone(), unique: false, live_only: None }),
+            CM::PSubscribe(PSubscribe { transaction_id: next(), request_pattern: k.clone(), unique: false, aggregate_events: None, live_only: None }),
+            CM::SubscribeLs(SubscribeLs { transaction_id: next(), parent: Some(k.clone()) }),
+            CM::Lock(Lock { transaction_id: next(), key: k.clone() }),
+            CM::AcquireLock(Lock { transaction_id: next(), key: k.clone() }),
+            CM::ReleaseLock(Lock { transaction_id: next(), key: k.clone() }),
+        ] {
+            lines.push((0, Line::Msg(m)));
+        }
+    }
+    lines.push((1, Line::Msg(CM::Set(Set { transaction_id: 4001, key: s("a/b"), value: json!("witness") }))));
+    SessionScenario {
+        property: "C17".into(),
+        clients: vec![0, 1],
+        lines,
+        candidates: crate::model::Flags::candidates(&known.open_for("C17")),
+        check_all: true,
+        witness: Some(1),
+        witness_script: witness_script(),
+        dedup: false,
+    }
+}
